@@ -65,7 +65,7 @@ def run_v1(ctx: Ctx, n: int):
             pre = w.dump()
             t = w.token(op["tok"])
             touched = F(w.broker.assets[t].balance) if t in w.broker.assets else F(0)
-            req = {"fn": "gmx1.step", "env": w.env_json(), "state": {"glp": pre["glp"], "reward": pre["reward"], "wallet": pre["wallet"]}, "op": G.v1_op_json(op, w)}
+            req = w.step_request(pre, w.env_json(), op)
             out, res, acts = w.apply(op)
             pending.append((op, out, res, acts, w.dump(), rep, req))
             ctx.impl_traces += 1
@@ -165,9 +165,12 @@ def run(ctx: Ctx):
     G.cap_violations(ctx)
     run_v1(ctx, ctx.scale(350, 8000))
     run_v2(ctx, ctx.scale(500, 10000))
+    G.special_stream(ctx, ctx.scale(400, 6000), "gmx.")
 
 
 def replay(ctx: Ctx, case) -> bool:
+    if "special" in case:
+        return G.special_replay(case, "gmx.")
     sp = case["world"]
     ok = True
     if sp["ver"] == 1:
